@@ -7,8 +7,30 @@
     that level of (offset + value); [objective] = sum of squared deviations;
     [resid_sum E x s] = sum of the deviations of interval s.  Exact rational
     arithmetic; the floating-point implementation is tied to it within a
-    tolerance by the correspondence check. *)
-From Spowtd Require Import Model.FitOffsets Proofs.QSum Proofs.FitOffsetsSpec Proofs.FindOffsetsSpec.
+    tolerance by the correspondence check.
+
+    What is proved here, in order:
+    - zero residual sums <=> global minimiser; invariance under a common shift;
+      uniqueness up to a common shift on a connected overlap graph;
+    - EXISTENCE: every collection of entries whatsoever has an assignment with
+      zero residual sums, hence a global minimiser (no hypothesis: not even
+      connectedness; Proofs/ExistenceSpec.v, the zero-residual conditions are a
+      weighted graph-Laplacian system, solved by induction on the intervals);
+      on a connected graph: there is a minimiser and it is unique up to a shift;
+    - SOLVER COMPLETENESS of the model: the Gauss-Jordan elimination of
+      Model/FitOffsets.v returns the solution of every uniquely solvable square
+      system (Proofs/GaussSpec.v); the normal equations the code assembles have
+      exactly one solution when the mapping is a dict (distinct levels), every
+      level lists distinct intervals and the overlap graph is connected
+      (Proofs/FindOffsetsComplete.v); hence [find_offsets] returns offsets there
+      (never [Err ELinAlg]), they minimise, and they are the minimiser up to a
+      shift; carried to the main body chosen by get_series_time_offsets
+      (Proofs/MainBodyComplete.v), where connectedness is itself a theorem (C08).
+    Still by correspondence only: that numpy.linalg.solve on the floating-point
+    system stays within the tolerance of the exact rational solution. *)
+From Spowtd Require Import Model.FitOffsets Model.Components Proofs.QSum Proofs.FitOffsetsSpec
+  Proofs.FindOffsetsSpec Proofs.ExistenceSpec Proofs.GaussSpec Proofs.FindOffsetsComplete
+  Proofs.MainBodyComplete.
 From Coq Require Import Relations.
 
 Theorem C05_zero_residuals_minimise : forall E x,
@@ -53,10 +75,178 @@ Theorem C05_find_offsets_minimises : forall hm sids offs,
 Proof. exact find_offsets_sound. Qed.
 Print Assumptions C05_find_offsets_minimises.
 
+(** ** Existence *)
+
+(** Every collection of entries has offsets whose residual sums all vanish.
+    No hypothesis: an interval may occur several times at a level, the overlap
+    graph may fall into pieces. *)
+Theorem C05_zero_residual_offsets_exist : forall E,
+  exists x, forall s, resid_sum E x s == 0.
+Proof. exact zero_resid_exists. Qed.
+Print Assumptions C05_zero_residual_offsets_exist.
+
+(** ... hence a global minimiser of the squared spread always exists. *)
+Theorem C05_minimiser_exists : forall E,
+  exists x, (forall s, resid_sum E x s == 0) /\ (forall y, objective E x <= objective E y).
+Proof. exact minimiser_exists. Qed.
+Print Assumptions C05_minimiser_exists.
+
+(** ... and one of the minimisers gives offset 0 to any chosen reference interval. *)
+Theorem C05_minimiser_exists_with_reference : forall E ref,
+  exists x, x ref == 0 /\ (forall s, resid_sum E x s == 0) /\
+            (forall y, objective E x <= objective E y).
+Proof. exact minimiser_exists_pinned. Qed.
+Print Assumptions C05_minimiser_exists_with_reference.
+
+(** For every connected collection there is a minimiser, and it is unique up to
+    a common shift. *)
+Theorem C05_minimiser_exists_unique_up_to_shift : forall E,
+  connected E ->
+  exists x, (forall s, resid_sum E x s == 0) /\
+            (forall y, objective E x <= objective E y) /\
+            (forall y, (forall z, objective E y <= objective E z) ->
+               forall s s', In s (ids E) -> In s' (ids E) -> y s - x s == y s' - x s').
+Proof. exact minimiser_exists_unique. Qed.
+Print Assumptions C05_minimiser_exists_unique_up_to_shift.
+
+(** The linear-algebra core of existence: a weighted graph-Laplacian system
+    (symmetric non-negative weights [w]) whose right-hand side is the divergence
+    of an antisymmetric flow [f] carried by the edges is solvable over Q. *)
+Theorem C05_laplacian_solvable : forall (vs : list nat), NoDup vs -> forall (w f : nat -> nat -> Q),
+  (forall a b, w a b == w b a) -> (forall a b, 0 <= w a b) ->
+  (forall a b, f a b == - f b a) -> (forall a b, w a b == 0 -> f a b == 0) ->
+  exists x, forall a, In a vs ->
+    qsum (map (fun b => w a b * (x a - x b)) vs) == qsum (map (f a) vs).
+Proof.
+  intros vs Hnd w f H1 H2 H3 H4.
+  exact (laplacian_solvable vs Hnd w f (Build_lap_ok w f H1 H2 H3 H4)).
+Qed.
+Print Assumptions C05_laplacian_solvable.
+
+(** The residual sum of an interval is its row of that Laplacian system
+    ([ov_w]: sum over shared levels of 1/n; [ov_f]: of (value' - value)/n). *)
+Theorem C05_residuals_are_laplacian_rows : forall E x s,
+  resid_sum E x s
+  == qsum (map (fun s' => ov_w E s s' * (x s - x s')) (ids E)) - qsum (map (ov_f E s) (ids E)).
+Proof. exact resid_as_laplacian. Qed.
+Print Assumptions C05_residuals_are_laplacian_rows.
+
+(** ** Solver completeness of the model *)
+
+(** Gauss-Jordan with row search, as in Model/FitOffsets.v: on a square system
+    with one and only one solution [y] it finds a pivot in every column and
+    returns [y]. *)
+Theorem C05_gauss_jordan_complete : forall (m : list (list Q)) (rhs : list Q) (y : nat -> Q),
+  let n := length m in
+  length rhs = n -> (forall r, In r m -> length r = n) ->
+  let aug := map (fun p => fst p ++ [snd p]) (combine m rhs) in
+  (forall r, In r aug -> row_sat n y r) ->
+  (forall z, (forall r, In r aug -> row_sat n z r) -> forall j, (j < n)%nat -> z j == y j) ->
+  exists sol, solve m rhs = Some sol /\ length sol = n /\
+              forall i, (i < n)%nat -> nth i sol 0 == y i.
+Proof. exact solve_complete. Qed.
+Print Assumptions C05_gauss_jordan_complete.
+
+(** The model of find_offsets returns offsets on every connected, non-empty
+    collection given as a dict whose levels list distinct intervals. *)
+Theorem C05_find_offsets_complete : forall hm,
+  NoDup (map fst hm) ->
+  (forall p, In p hm -> NoDup (map fst (snd p))) ->
+  connected (entries_of (drop_single hm)) ->
+  entries_of (drop_single hm) <> [] ->
+  exists offs, find_offsets hm = Ok (sorted_ids (entries_of (drop_single hm)), offs).
+Proof. exact find_offsets_complete. Qed.
+Print Assumptions C05_find_offsets_complete.
+
+Theorem C05_find_offsets_never_singular : forall hm,
+  NoDup (map fst hm) ->
+  (forall p, In p hm -> NoDup (map fst (snd p))) ->
+  connected (entries_of (drop_single hm)) ->
+  find_offsets hm <> Err ELinAlg.
+Proof. exact find_offsets_never_linalg. Qed.
+Print Assumptions C05_find_offsets_never_singular.
+
+(** Completeness, soundness and uniqueness in one statement. *)
+Theorem C05_find_offsets_total : forall hm,
+  NoDup (map fst hm) ->
+  (forall p, In p hm -> NoDup (map fst (snd p))) ->
+  connected (entries_of (drop_single hm)) ->
+  entries_of (drop_single hm) <> [] ->
+  let E := entries_of (drop_single hm) in
+  exists offs,
+    find_offsets hm = Ok (sorted_ids E, offs) /\
+    let x := assignment (sorted_ids E) offs in
+    (forall s, resid_sum E x s == 0) /\
+    (forall y, objective E x <= objective E y) /\
+    (forall y, (forall z, objective E y <= objective E z) ->
+       forall s s', In s (ids E) -> In s' (ids E) -> y s - x s == y s' - x s').
+Proof. exact find_offsets_total. Qed.
+Print Assumptions C05_find_offsets_total.
+
+(** The same for what get_series_time_offsets does (main body of the mapping):
+    no connectivity hypothesis is left, it is a theorem (C08). *)
+Theorem C05_main_body_offsets_exist : forall hm : head_mapping,
+  NoDup (map fst hm) ->
+  (forall p, In p hm -> NoDup (map fst (snd p))) ->
+  components (series_at_head hm) <> [] ->
+  exists sids offs levels, offsets_from_mapping hm = Ok (sids, offs, levels).
+Proof. exact main_body_offsets_exist. Qed.
+Print Assumptions C05_main_body_offsets_exist.
+
+Theorem C05_main_body_never_singular : forall hm : head_mapping,
+  NoDup (map fst hm) ->
+  (forall p, In p hm -> NoDup (map fst (snd p))) ->
+  offsets_from_mapping hm <> Err ELinAlg.
+Proof. exact main_body_never_linalg. Qed.
+Print Assumptions C05_main_body_never_singular.
+
 (** Non-vacuity: three intervals, four levels (one of them crossed by a single
-    interval and dropped); the hypotheses of uniqueness hold for this graph. *)
+    interval and dropped); every hypothesis of the theorems above holds for this
+    mapping. *)
+Definition C05_example_hm : head_mapping :=
+  [(5%Z, [(0%nat, 1); (1%nat, 4)]); (6%Z, [(0%nat, 2); (1%nat, 5); (2%nat, 9)]);
+   (7%Z, [(1%nat, 7); (2%nat, 10)]); (8%Z, [(2%nat, 3)])].
+
 Example C05_example :
-  find_offsets [(5%Z, [(0%nat, 1); (1%nat, 4)]); (6%Z, [(0%nat, 2); (1%nat, 5); (2%nat, 9)]);
-                (7%Z, [(1%nat, 7); (2%nat, 10)]); (8%Z, [(2%nat, 3)])]
-  = Ok ([0%nat; 1%nat; 2%nat], [20 # 3; 53 # 15; 0]).
+  find_offsets C05_example_hm = Ok ([0%nat; 1%nat; 2%nat], [20 # 3; 53 # 15; 0]).
+Proof. vm_compute. reflexivity. Qed.
+
+Example C05_example_levels_distinct : NoDup (map fst C05_example_hm).
+Proof. repeat constructor; simpl; intuition discriminate. Qed.
+
+Example C05_example_intervals_distinct :
+  forall p, In p C05_example_hm -> NoDup (map fst (snd p)).
+Proof.
+  intros p Hp. simpl in Hp.
+  repeat (destruct Hp as [<-|Hp]; [repeat constructor; simpl; intuition discriminate|]).
+  destruct Hp.
+Qed.
+
+Example C05_example_nonempty : entries_of (drop_single C05_example_hm) <> [].
+Proof. vm_compute. discriminate. Qed.
+
+Example C05_example_connected : connected (entries_of (drop_single C05_example_hm)).
+Proof.
+  set (E := entries_of (drop_single C05_example_hm)).
+  assert (L01 : linked E 0%nat 1%nat).
+  { exists {| e_head := 5; e_series := 0; e_val := 1 |}, {| e_head := 5; e_series := 1; e_val := 4 |}.
+    vm_compute. intuition. }
+  assert (L12 : linked E 1%nat 2%nat).
+  { exists {| e_head := 7; e_series := 1; e_val := 7 |}, {| e_head := 7; e_series := 2; e_val := 10 |}.
+    vm_compute. intuition. }
+  assert (Lsym : forall a b, linked E a b -> linked E b a).
+  { intros a b (c & c' & H1 & H2 & H3 & H4 & H5). exists c', c. intuition. }
+  intros s s' Hs Hs'. vm_compute in Hs, Hs'.
+  destruct Hs as [<-|[<-|[<-|[]]]]; destruct Hs' as [<-|[<-|[<-|[]]]];
+    first [ apply rt_refl
+          | apply rt_step; first [exact L01|exact L12|apply Lsym; first [exact L01|exact L12]]
+          | apply rt_trans with 1%nat; apply rt_step;
+            first [exact L01|exact L12|apply Lsym; first [exact L01|exact L12]] ].
+Qed.
+
+(** the residuals of the offsets returned do sum to zero, interval by interval *)
+Example C05_example_zero_residuals :
+  let E := entries_of (drop_single C05_example_hm) in
+  forallb (fun s => Qeq_bool (resid_sum E (assignment [0%nat; 1%nat; 2%nat] [20 # 3; 53 # 15; 0]) s) 0)
+          [0%nat; 1%nat; 2%nat] = true.
 Proof. vm_compute. reflexivity. Qed.
